@@ -7,6 +7,7 @@ from __future__ import annotations
 
 import ast
 
+from ..fsm_model import exc_hierarchy
 from ..srcmodel import AnalysisError, norm
 from ..svc_model import ServiceAnalysis, classify, is_message_token, is_response_token, status_constant
 from ..sym import is_token, loop_body_outcomes, token_class
@@ -185,27 +186,36 @@ def run(repo, rep):
         f = repo.func(mod, qual)
         rep.analysed(f)
         probs = []
-        fl = [n_ for n_ in ast.walk(f.node) if isinstance(n_, ast.For)]
-        if len(fl) != 1:
-            probs.append('%d loops' % len(fl))
+        # by provenance: whatever the wrapper iterates is yielded pair by pair, unchanged, and what it iterates is the
+        # find service applied to its own arguments
+        from ..sym import SymClient as _SC, empty_state as _es, loop_body_outcomes as _lbo
+        wc = _SC(repo, f, event_of=lambda *a_: None, hierarchy=exc_hierarchy(repo))
+        wc.run(_es())
+        wloops = [(cl_, nd_, st_) for cl_, nd_, st_ in wc.loops if isinstance(nd_, ast.For)]
+        if len({id(nd_) for _c, nd_, _s in wloops}) != 1:
+            probs.append('%d loops' % len({id(nd_) for _c, nd_, _s in wloops}))
         else:
-            lp = fl[0]
-            tg = [norm(x) for x in lp.target.elts] if isinstance(lp.target, ast.Tuple) else [norm(lp.target)]
-            ys = [n_ for n_ in ast.walk(lp) if isinstance(n_, ast.Yield)]
-            if len(ys) != 1 or len(lp.body) != 1:
-                probs.append('loop body is not a single yield')
-            else:
-                yv = [norm(x) for x in ys[0].value.elts] if isinstance(ys[0].value, ast.Tuple) else [norm(ys[0].value)]
-                if yv != tg:
-                    probs.append('yields %s for received %s: pairs are not forwarded unchanged' % (yv, tg))
+            _cl, lp, entry = wloops[0]
+            it = wc.term(lp.iter, entry)
+            o_ = _lbo(wc, lp)
+            outs_ = list(o_.fall) + list(o_.cont)
+            if o_.brk or o_.ret or not outs_:
+                probs.append('the forwarding loop can be left early')
+            for s_ in outs_:
+                ys = [e_ for e_ in s_.trail if e_.kind == 'yield']
+                if len(ys) != 1:
+                    probs.append('%d yields per received pair' % len(ys))
+                elif tuple(ys[0].args) not in (('ITEM(%s)[0]' % it, 'ITEM(%s)[1]' % it), ('ITEM(%s)' % it,)):
+                    probs.append('yields %s for a received pair: pairs are not forwarded unchanged' % (ys[0].args,))
             if callee_pat:
-                if not (isinstance(lp.iter, ast.Call) and norm(lp.iter.func) == callee_pat and [norm(x) for x in lp.iter.args] == f.params):
+                if it != '%s(%s)' % (callee_pat, ', '.join(f.params)):
                     probs.append('does not iterate %s(%s)' % (callee_pat, ', '.join(f.params)))
             else:
-                src = norm(f.node)
-                if 'asce.get_scu(root)' not in src or 'add_scu(sopclass.qr_find_scu)' not in src:
+                rae, _laet, dsp, rootp = f.params[0], f.params[1], f.params[2], f.params[3]
+                if '.add_scu(sopclass.qr_find_scu)' not in it or ('.request_association(%s)' % rae) not in it \
+                        or ('.get_scu(%s)(' % rootp) not in it:
                     probs.append('c_find does not use the qr_find_scu service of the requested root')
-                if not (isinstance(lp.iter, ast.Call) and [norm(x) for x in lp.iter.args][:1] == ['ds']):
+                if not it.rsplit('.get_scu(%s)(' % rootp, 1)[-1].startswith(dsp + ','):
                     probs.append('c_find does not pass the query data set')
         rep.check(not probs, 'C16.R3', '%s:%s:forwarding' % (mod, qual), f.loc(), 'forwards every pair unchanged, in order', '; '.join(probs))
 
